@@ -26,7 +26,7 @@ type c18 struct{}
 func (c18) ID() string    { return "C18" }
 func (c18) Level() string { return "exploration" }
 func (c18) Rule() string {
-	return "cases = problems after parse-time simplification x printer: CNF problems (T2 incl. dirty clauses and parse-time Unsat, S3 with <=3 clauses, units and simplified-away clauses) through Problem.CNF, Problem.PBString, explain.Problem.CNF and Solver.PBString (fresh, after a Solve, after an AppendClause); cardinality/PB sets (C02 singles, single+unit, card pairs, decreasing-coefficient family) with and without cost function (every cost function over <=2 variables, weights 0..2, and negative weights through OPB) through Problem.PBString, Clause.PBString and Solver.PBString. Oracle: the text is accepted by a reference reader of its format (header counts, terminators, min: syntax) and by the repository's parser; the re-parsed problem, read structurally, has the same models over the same variables and the same cost for every model as the printed problem read structurally (for Solver.PBString: as the truth table of what the solver holds). Non-trivial = parse-time simplification changed the problem (units or removed constraints) or a cost function is present."
+	return "cases = problems after parse-time simplification x printer: CNF problems (T2 incl. dirty clauses and parse-time Unsat, S3 with <=3 clauses, units and simplified-away clauses) through Problem.CNF, Problem.PBString (also printed after a solver built from the Problem has run), explain.Problem.CNF and Solver.PBString (fresh, after a Solve, after an AppendClause); cardinality/PB sets (C02 singles, single+unit, card pairs, decreasing-coefficient family) with and without cost function (every cost function over <=2 variables, weights 0..2, and negative weights through OPB) through Problem.PBString, Clause.PBString and Solver.PBString. Oracle: the text is accepted by a reference reader of its format (header counts, terminators, min: syntax) and by the repository's parser; the re-parsed problem, read structurally, has the same models over the same variables and the same cost for every model as the printed problem read structurally (for Solver.PBString: as the truth table of what the solver holds). Non-trivial = parse-time simplification changed the problem (units or removed constraints) or a cost function is present."
 }
 func (c18) Assumptions() []string {
 	return []string{"reference readers implement DIMACS CNF and OPB (linear, >= and =, min:) as published", "truth-table reference is correct"}
@@ -39,7 +39,7 @@ func (c18) Decode(raw json.RawMessage) (core.Case, error) {
 
 func (c18) Enumerate(tier string, seed int64, yield func(string, core.Case) bool) {
 	thorough := tier == "thorough"
-	cnfVias := []string{"cnf", "pbstring", "explain-cnf", "solver-fresh", "solver-solved"}
+	cnfVias := []string{"cnf", "pbstring", "explain-cnf", "solver-fresh", "solver-solved", "cnf-after-solve", "pbstring-after-solve"}
 	emitCNF := func(fam string, f [][]int, n int) bool {
 		for _, front := range []string{"slicenb", "slice"} {
 			p := cnfProb(front, f, n, n)
@@ -78,7 +78,7 @@ func (c18) Enumerate(tier string, seed int64, yield func(string, core.Case) bool
 	for _, cf := range costFunctions(3, 2, 0, 2, true) {
 		costs = append(costs, cf)
 	}
-	pbVias := []string{"pbstring", "solver-fresh", "solver-solved", "clause-pbstring"}
+	pbVias := []string{"pbstring", "solver-fresh", "solver-solved", "clause-pbstring", "pbstring-after-solve"}
 	if !enumConstraintSets(tier, func(fam string, p Prob) bool {
 		switch fam {
 		case "card1", "card1u", "pb1", "dec", "card2", "pb1u":
@@ -284,6 +284,13 @@ func (c18) Exec(cc core.Case, r *core.Rec) []core.Failure {
 			text = pb.CNF()
 		case "pbstring":
 			text = pb.PBString()
+		case "cnf-after-solve": // the Problem is printed after a solver built from it has run
+			isOPB = false
+			solver.New(pb).Solve()
+			text = pb.CNF()
+		case "pbstring-after-solve":
+			solver.New(pb).Solve()
+			text = pb.PBString()
 		case "clause-pbstring":
 			var sb strings.Builder
 			for _, cl := range pb.Clauses {
@@ -342,7 +349,7 @@ func (c18) Exec(cc core.Case, r *core.Rec) []core.Failure {
 			add("malformed-dimacs", fmt.Sprintf("%v\n%s", e, text))
 			return fs
 		}
-		if rn != pb.NbVars && c.Via == "cnf" {
+		if rn != pb.NbVars && (c.Via == "cnf" || c.Via == "cnf-after-solve") {
 			add("variable-count", fmt.Sprintf("header declares %d variables, the problem has %d\n%s", rn, pb.NbVars, text))
 			return fs
 		}
@@ -358,7 +365,7 @@ func (c18) Exec(cc core.Case, r *core.Rec) []core.Failure {
 		var back tt.Set
 		var perr error
 		pn, _ := guard(func() {
-			if c.Via == "cnf" {
+			if c.Via == "cnf" || c.Via == "cnf-after-solve" {
 				pb2, err := solver.ParseCNF(strings.NewReader(text))
 				if err != nil {
 					perr = err
